@@ -21,12 +21,20 @@ TRUSTED_BASE = [
 
 
 def goroot():
-    r = subprocess.run(["/usr/bin/go", "env", "GOROOT"], cwd=REPO, capture_output=True, text=True,
-                       env={**os.environ, "GOPROXY": "off", "GOFLAGS": "-mod=mod"})
-    p = r.stdout.strip()
-    if not p or not os.path.isdir(p):
-        p = "/root/go/pkg/mod/golang.org/toolchain@v0.0.1-go1.26.2.linux-amd64"
-    return p
+    """GOROOT of the toolchain /repo's go.mod selects (the system go auto-switches to it from the module cache)."""
+    e = {k: v for k, v in os.environ.items() if k not in ("GOROOT", "GOTOOLCHAIN", "GOFLAGS")}
+    e.update(GOPROXY="off", GOFLAGS="-mod=mod", GOTOOLCHAIN="auto")
+    for go in ("/usr/bin/go", "go"):
+        try:
+            r = subprocess.run([go, "env", "GOROOT"], cwd=REPO, capture_output=True, text=True, env=e)
+        except OSError:
+            continue
+        p = r.stdout.strip()
+        if p and os.path.exists(os.path.join(p, "bin", "go")) and "toolchain@" in p:
+            return p
+    import glob
+    c = sorted(glob.glob("/root/go/pkg/mod/golang.org/toolchain@v0.0.1-go1.26.2*"))
+    return c[0] if c else "/root/go/pkg/mod/golang.org/toolchain@v0.0.1-go1.26.2.linux-amd64"
 
 
 _ENV = None
